@@ -9,6 +9,7 @@ Notation B := (bval numbered).
 Definition par_of (e : tinfo) (x : val) : pieces :=
   match x with
   | VList _ [] => [PV SNull]
+  | VList LU8 _ => B e x
   | VList _ l => sepc [PC ","] (map (B e) l)
   | VS s => scalar_par s
   | _ => B e x
